@@ -244,7 +244,7 @@ func checkC03(c *Ctx) error {
 			"minus":      "<%= " + rep("-", d) + "1 %>",
 			"assigns":    "<% " + rep("a = ", d) + "1 %>",
 			"idxassign":  "<% a" + rep("[0]", d) + " = 1 %>",
-			"strings":  "<%= " + rep("\"", d) + " %>",
+			"strings":    "<%= " + rep("\"", d) + " %>",
 		}
 		for name, src := range nest {
 			c03Try(c, src, "nesting:"+name, map[string]interface{}{"gen": "nesting", "source_text": src, "depth": d, "construct": name})
